@@ -425,7 +425,8 @@ def run_c11(chk, tier, seed):
     ft = flatten(SMALL)
     cands = cands_for(SMALL, rich=False)
     q, e = c10_units(th)
-    defs = [f"Q == {set_of(q)}", f"E == {set_of(e[:1])}"]
+    conv = U(["A"], data=[DATA[x] for x in ("num2", "numsuf", "expr", "hex", "str", "blk", "chr")], h=H(pulls=["req"] * 7))
+    defs = [f"Q == {set_of(q)}", f"E == {set_of(e[:1] + [conv])}"]
     k = 3
     maxlen = 3 * 16 + 4
     run_projection(chk, "C11", "capacity", ft, cands, defs, "Q \\cup E", "Q \\cup E", k, ["", ";"] if not th else ["", "\n", ";"],
